@@ -369,6 +369,11 @@ def token_spec(rng, idx):
         add_class(1)
     if rng.random() < 0.3:
         add_class(1, template=True)
+    if rng.random() < 0.35:
+        # a namespace that holds nothing but an enumeration
+        entries.append({"kind": "cont", "what": "namespace", "indent": "", "name": "zq%dnsc" % idx,
+                        "over": cont_over(), "depth": 1})
+        add_enum("  ")
     if rng.random() < 0.6:
         entries.append({"kind": "cont", "what": "namespace", "indent": "", "name": "zq%dnsa" % idx,
                         "over": cont_over(), "depth": 1})
@@ -607,9 +612,11 @@ def family_jobs(seeds, nfam, bases, patterns=None, label="c15fam", round_robin=F
         pat = patterns[(i // len(bases)) % len(patterns)] if patterns else None
         dargv, mk, pat = pool.dir_pattern(rng, pat)
         ypath = [p for p in base.files if p.endswith("/" + base.meta["yaml"] + ".yaml")][0]
-        lists = {"cfiles": rng.choice([OUT + "/cfiles.txt", WORK + "/c.lst"]),
-                 "ffiles": rng.choice([OUT + "/ffiles.txt", WORK + "/f.lst"])}
-        mk = sorted(set(mk + [posixpath.dirname(p) for p in lists.values()] + [WORK]))
+        # (list names: absolute, or relative to the directory the run starts in)
+        lists = {"cfiles": rng.choice([OUT + "/cfiles.txt", WORK + "/c.lst", "c_rel.lst"]),
+                 "ffiles": rng.choice([OUT + "/ffiles.txt", WORK + "/f.lst", "lists/f_rel.lst"])}
+        mk = sorted(set(mk + [posixpath.dirname(p if p.startswith("/") else WORK + "/" + p) for p in lists.values()]
+                        + [WORK]))
         fam = "%s/%d-%s-%s" % (label, i, base.id.split("/")[-1], pat)
         extra = []
         if rng.random() < 0.3:
